@@ -1749,8 +1749,17 @@ class EntityTemplate(Block):
             return obj
 
         for ctx in self.all_contexts():
-            current_ctx = ctx
-            ctx.visit_objects(check_usage)
+            if isinstance(ctx, Sequential) and ctx._always_expr is not None:
+                # The always expression is emitted as a concurrent block outside
+                # of the process, it is a separate driver of the objects it writes.
+                current_ctx = ctx._always_expr
+                ctx._always_expr.visit_objects(check_usage)
+
+                current_ctx = ctx
+                ctx.visit_objects(check_usage, include_always_expr=False)
+            else:
+                current_ctx = ctx
+                ctx.visit_objects(check_usage)
 
         for block in self.all_blocks():
             if isinstance(block, Entity):
